@@ -395,7 +395,14 @@ func c19Jobs(tier string) []*SeqJob {
 					d = depthC - 1
 				}
 				ctx.OpsPrefix = []string{fmt.Sprintf("children=%d caps=%d", n, capPattern)} // makes the replay self-contained
-				bfs(ctx, cachedAlpha, d, func(h []int) (string, string, string, int) { return runCached(n, h) })
+				bfs(ctx, cachedAlpha, d, func(h []int) (cl, det, key string, steps int) {
+					cl, det = guard(func() (string, string) {
+						var c, e string
+						c, e, key, steps = runCached(n, h)
+						return c, e
+					})
+					return
+				})
 				if ctx.viol != nil {
 					break
 				}
